@@ -230,6 +230,24 @@ func run(env *simrt.Env, sci interface{}) {
 	var listenerCloseInv, listenerCloseRet uint64
 	var acceptErrAfterClose error
 	acceptorDone := false
+	// called by whoever has just returned from a Close: if that was the last one (listener and every
+	// accepted connection closed, the acceptor has seen the end, so the list is complete), the
+	// shared socket is closed at this very moment, not a little later
+	lastCloseReturned := func(who string) {
+		if prop != "C12" || sc.ReadErrAtNs > 0 || sc.LastWrite != "" || !acceptorDone || listenerCloseRet == 0 {
+			return
+		}
+		for _, c := range conns {
+			if c.closeRet == 0 {
+				return
+			}
+		}
+		if simnet.Bound(lkey) {
+			env.Fail("C12/socket-not-closed", "%s was the last Close to return (listener and all %d accepted connections are closed, concurrently), yet the shared socket is still open at that moment", who, len(conns))
+		} else {
+			env.Probe("last-concurrent-close-checked")
+		}
+	}
 	readUntilErr := func(c *connRec) {
 		buf := make([]byte, 9000)
 		if sc.ReadBuf > 0 {
@@ -260,6 +278,7 @@ func run(env *simrt.Env, sci interface{}) {
 				c.closeInv = env.Stamp()
 				_ = c.conn.Close()
 				c.closeRet = env.Stamp()
+				lastCloseReturned(fmt.Sprintf("the Close of connection #%d (by its reader)", c.idx))
 			}
 		}
 	}
@@ -300,6 +319,7 @@ func run(env *simrt.Env, sci interface{}) {
 							env.Fault("concurrent-double-close")
 						}
 						rec.closeRet = env.Stamp()
+						lastCloseReturned(fmt.Sprintf("the Close of connection #%d", rec.idx))
 						env.Fault("racy-conn-close")
 					}
 				})
@@ -335,6 +355,7 @@ func run(env *simrt.Env, sci interface{}) {
 			listenerCloseInv = env.Stamp()
 			_ = l.Close()
 			listenerCloseRet = env.Stamp()
+			lastCloseReturned("the listener's Close")
 			env.Fault("racy-listener-close")
 		}))
 	}
